@@ -785,6 +785,17 @@ def run(ctx):
                     "and as_dict(); non-trivial = successful parse with at least one name; modes: memoization off, packrat, "
                     "left-recursion; constructed: 14 grammar families with a constructed expected name tree (incl. Combine, "
                     "FollowedBy, Dict, Located) x random words; twin: e('n') vs Located(e)('n')")
+    # registered finding (the model reproduces it - theorem replaced_tokens_first_only - so the correspondence is quiet):
+    # after a parse action that returns a list, a list-valued name reports only the first token of the new list
+    pp = common.import_pyparsing()
+    e = (pp.Word("a") + pp.Word("b"))("x").add_parse_action(lambda t: list(t)[::-1])
+    r = e.parse_string("a b")
+    if r.as_list() == ["b", "a"] and list(r["x"]) != ["b", "a"]:
+        ctx.fail_input("a results name does not report what its element produced",
+                       {"program": "(Word('a') + Word('b'))('x').add_parse_action(lambda t: list(t)[::-1])", "input": "a b"},
+                       {"tokens": ["b", "a"], "x": ["b", "a"]}, {"tokens": r.as_list(), "x": list(r["x"])},
+                       theorem="C05 statement", signature="replaced_list_name_first_only")
+    ctx.count_cases("known-finding-witness", 1)
     NONE = [("none",)]
     MEMO = [("packrat", 128), ("packrat", None), ("lr", None)]
     mk_random = lambda rng, k: gen.gen_case(rng, gen.Cfg(**RANDOM_CFG), k)
